@@ -203,3 +203,47 @@ Proof.
     repeat (destruct Hin as [<-|Hin]; [simpl in He; try discriminate He; injection He as <-; vm_compute; reflexivity|]).
     destruct Hin.
 Qed.
+
+(* ---- whole node, any two nodes: aggregation path, sync path, restarts, transitions ---- *)
+From Coq Require Import Lia.
+From DV Require Import Model.Node Proofs.NodeProofs.
+
+(* Any two honest nodes of the same chain -- each running the full node-local protocol of
+   Model/Node.v on its OWN arbitrary event list (partials from anyone, sync streams of any
+   content, ticks, stops, restarts, group transitions; different group views, shares and clocks)
+   -- hold identical beacons for every round they both have.  Needs only that signatures are
+   unique per message (deterministic threshold BLS) and that unchained digests ignore the
+   previous signature. *)
+Theorem C02_net_agree :
+  forall (C : cfg) (vrec : Z -> Z -> Z -> bool)
+         idx1 vpart1 recov1 own1 idx2 vpart2 recov2 own2,
+    (c_chained C = false -> forall r p p' s, vrec r p s = vrec r p' s) ->
+    (forall r p s1 s2, vrec r p s1 = true -> vrec r p s2 = true -> s1 = s2) ->
+    forall g s1 s2 es1 es2 s1' os1 s2' os2,
+      s_chain s1 = [g] -> s_chain s2 = [g] ->
+      run C idx1 vpart1 recov1 vrec own1 s1 es1 = (s1', os1) ->
+      run C idx2 vpart2 recov2 vrec own2 s2 es2 = (s2', os2) ->
+      forall b1 b2, In b1 (s_chain s1') -> In b2 (s_chain s2') -> b_round b1 = b_round b2 -> b1 = b2.
+Proof.
+  intros C vrec idx1 vpart1 recov1 own1 idx2 vpart2 recov2 own2 Hun Huq g s1 s2 es1 es2 s1' os1 s2' os2
+         Hg1 Hg2 Hr1 Hr2 b1 b2 Hi1 Hi2 Hr.
+  assert (Hok : forall s, s_chain s = [g] -> s_chain s <> [] /\ chain_ok C vrec (s_chain s))
+    by (intros s ->; split; [discriminate|simpl; auto]).
+  destruct (Hok s1 Hg1) as [N1 K1]. destruct (Hok s2 Hg2) as [N2 K2].
+  destruct (chain_gapfree_appendonly C idx1 vpart1 recov1 vrec own1 Hun s1 es1 s1' os1 N1 K1 Hr1) as [C1 [a1 E1]].
+  destruct (chain_gapfree_appendonly C idx2 vpart2 recov2 vrec own2 Hun s2 es2 s2' os2 N2 K2 Hr2) as [C2 [a2 E2]].
+  assert (G1 : genesis_of (s_chain s1') = g).
+  { unfold genesis_of. rewrite E1, Hg1. apply last_last. }
+  assert (G2 : genesis_of (s_chain s2') = g).
+  { unfold genesis_of. rewrite E2, Hg2. apply last_last. }
+  assert (Hge : b_round g <= b_round b1).
+  { rewrite <- G1. apply (chain_ok_rounds C vrec); assumption. }
+  eapply (chains_agree C vrec Huq (s_chain s1') (s_chain s2') C1 C2) with (n := Z.to_nat (b_round b1 - b_round g));
+    try eassumption.
+  - rewrite E1, Hg1. destruct a1; discriminate.
+  - rewrite E2, Hg2. destruct a2; discriminate.
+  - congruence.
+  - rewrite G1. lia.
+  - lia.
+Qed.
+Print Assumptions C02_net_agree.
